@@ -42,7 +42,7 @@ Next ==
   \/ \E pk \in net : Deliver(pk, FALSE)
   \/ (used.dup < MaxDup /\ \E pk \in net : Deliver(pk, TRUE))
   \/ \E pk \in net : (IF pk.to \in up THEN used.lose < MaxLose ELSE TRUE) /\ Lose(pk)
-  \/ \E n \in Nodes, p \in Nodes : SendReliable(n, p)
+  \/ \E n \in Nodes, k \in Keys, p \in Nodes : SendReliable(n, k, p)
   \/ (PPOn /\ \E a \in Nodes, b \in Nodes : PushPull(a, b))
   \/ (PPOn /\ sweep < MaxSweep /\ EndSweep)
   \/ (used.crash < MaxCrash /\ \E n \in Nodes : Crash(n))
